@@ -1,6 +1,7 @@
 package checks
 
 import (
+	"sync"
 	"reflect"
 	"encoding/json"
 	"fmt"
@@ -334,6 +335,48 @@ var c14Kind = registerKind("c14", func(in c14In) string {
 	return ""
 })
 
+// c14Concurrent: the mapping is a pure function also when several goroutines
+// classify DIFFERENT values at the same time (each walks all 65 536 values in
+// its own order; every answer is compared with the table).
+func c14Concurrent() string {
+	const G = 8
+	errs := make([]string, G)
+	var wg sync.WaitGroup
+	start := make(chan struct{})
+	for g := 0; g < G; g++ {
+		wg.Add(1)
+		go func(g int) {
+			defer wg.Done()
+			<-start
+			step := []int{1, 257, 4099, 65535, 3, 32771, 769, 12289}[g]
+			for round := 0; round < 3 && errs[g] == ""; round++ {
+				v := uint16(g * 8191)
+				for i := 0; i < 65536; i++ {
+					want := lifecycleState(v)
+					st := psatoken.LifeCycleToState(v)
+					if (want >= 0) != st.IsValid() || (want >= 0 && int(st) != want) {
+						errs[g] = fmt.Sprintf("LifeCycleToState(0x%04x) = %d (%s) while %d other goroutines classify other values; the table says %d", v, st, st, G-1, want)
+						break
+					}
+					if err := psatoken.ValidateSecurityLifeCycle(v); (err == nil) != (want >= 0) {
+						errs[g] = fmt.Sprintf("ValidateSecurityLifeCycle(0x%04x) = %v while other goroutines validate other values; valid=%v", v, err, want >= 0)
+						break
+					}
+					v += uint16(step)
+				}
+			}
+		}(g)
+	}
+	close(start)
+	wg.Wait()
+	for _, e := range errs {
+		if e != "" {
+			return e
+		}
+	}
+	return ""
+}
+
 func TestC14_All(t *testing.T) {
 	st := NewStats("C14", "TestC14_All", "all 65536 lifecycle values, exhaustively, against a table oracle: LifeCycleToState, state name, IsValid, ValidateSecurityLifeCycle, both profiles' setter+getter (on a fresh claims-set and on ones already holding the same / a valid / an invalid value), struct-literal getter+Validate, setter+getter on zero-value objects, on objects that decoded a document without / with a foreign profile claim and on instances of derived profiles and on objects on which earlier setter calls were refused, CBOR decode-and-validate of a token carrying the value (thorough: also the JSON route). Non-trivial = a value other than the 18 the repository's table test pins; distinct = value")
 	st.Exhaustive = true
@@ -343,6 +386,9 @@ func TestC14_All(t *testing.T) {
 		pinned[v] = true
 	}
 	shard, shards := shardInfo()
+	if msg := c14Concurrent(); msg != "" {
+		t.Fatalf("C14 violated: %s", msg)
+	}
 	for v := 0; v <= 0xffff; v++ {
 		if v%shards != shard {
 			continue
